@@ -662,6 +662,14 @@ func runConfigs(r *rng.R, nF, nE int, ss *shardSet, m *meta) {
 		{PAC: &pacDesc{Table: map[string]string{}, Default: "SOCKS5 pa.test:3128"}, Mode: "allow"},
 		{PAC: &pacDesc{Table: map[string]string{}, Default: "PROXY pa.test:3128; DIRECT"}, Mode: "direct", Direct: []string{`other\.test`}, Rules: []string{"pa.test:3128:rt.test:9000"}},
 		{PAC: &pacDesc{Table: map[string]string{}, Default: "HTTPS pb.test:8443"}, Mode: "allow"},
+		{PAC: &pacDesc{Table: map[string]string{}, Default: "PROXY pa.test:"}, Mode: "allow"},
+		{PAC: &pacDesc{Table: map[string]string{}, Default: "PROXY pa.test:http"}, Mode: "allow"},
+		{PAC: &pacDesc{Table: map[string]string{}, Default: "HTTPS pa.test:"}, Mode: "allow"},
+		{PAC: &pacDesc{Table: map[string]string{}, Default: "SOCKS5 pa.test:"}, Mode: "allow"},
+		{PAC: &pacDesc{Table: map[string]string{}, Default: "SOCKS5 pa.test:x"}, Mode: "allow"},
+		{PAC: &pacDesc{Table: map[string]string{}, Default: "PROXY :3128"}, Mode: "allow"},
+		{PAC: &pacDesc{Table: map[string]string{}, Default: "PROXY [::1]:3128"}, Mode: "allow"},
+		{PAC: &pacDesc{Table: map[string]string{}, Default: "PROXY  pa.test:3128"}, Mode: "allow"},
 		{Upstream: "socks5://pa.test:3128", Mode: "direct"},
 		{Upstream: "https://pb.test:8443", Mode: "allow", Rules: []string{":8443:rt.test:"}},
 		{Mode: "allow", Rules: []string{"origin.test:80:rt.test:9000", "::rt2.test:"}},
